@@ -1237,3 +1237,36 @@ M("C09-benign-blank-loop-explicit", "C09", "src/cppparser/cppPreprocessor.cxx",
   "  c = skip_comment(get());\n  while (c != EOF && c != '\\n' && isspace(c)) {\n    c = skip_comment(get());\n  }\n\n  int begin_line",
   "  c = skip_comment(get());\n  while (c != '\\n' && c != EOF && isspace(c)) {\n    c = skip_comment(get());\n  }\n\n  int begin_line",
   benign=True)
+
+# ---------------------------------------------------------------- R15.16 / R15.17 / R06.9 (F-C15l, F-C15m, F-C06g)
+M("C15-parameter-expression-cleared-while-printing", "C15", "src/cppparser/cppParameterList.cxx",
+  "          i < (int)_parameters.size() - num_default_parameters &&\n          !_parameters[i]->_type->is_parameter_expr()) {",
+  "          i < (int)_parameters.size() - num_default_parameters) {",
+  expect="R15.16|CPPParameterList::output|clear#0|spares-parameter-expressions")
+M("C15-initializer-deref-unguarded", "C15", "src/cppparser/cppInstance.cxx",
+  "  if (_initializer != nullptr && !_initializer->is_fully_specified()) {",
+  "  if (!_initializer->is_fully_specified()) {",
+  expect="R15.16|CPPInstance::is_fully_specified")
+M("C15-enumerator-without-value", "C15", "src/cppparser/cppEnumType.cxx",
+  "      static CPPExpression *const one = new CPPExpression(1);\n      value = new CPPExpression('+', _last_value, one);",
+  "      // leave it to the compiler",
+  expect="R15.16|CPPEnumType::add_element|element-always-valued")
+M("C15-benign-initializer-test-swapped", "C15", "src/cppparser/cppInstance.cxx",
+  "  if (_initializer != nullptr && !_initializer->is_fully_specified()) {",
+  "  if (nullptr != _initializer && !_initializer->is_fully_specified()) {",
+  benign=True)
+M("C15-custom-literal-null-expression", "C15", "src/cppparser/cppPreprocessor.cxx",
+  "  error(fgroup->_name + \" has no suitable overload for literal of this type\", loc);\n  return CPPToken(token, loc, str, value);",
+  "  error(fgroup->_name + \" has no suitable overload for literal of this type\", loc);\n  result.u.expr = nullptr;\n  return CPPToken(CUSTOM_LITERAL, loc, str, result);",
+  expect="R15.17|")
+M("C15-benign-custom-literal-error-first", "C15", "src/cppparser/cppPreprocessor.cxx",
+  "  error(fgroup->_name + \" has no suitable overload for literal of this type\", loc);\n  return CPPToken(token, loc, str, value);",
+  "  CPPToken plain(token, loc, str, value);\n  error(fgroup->_name + \" has no suitable overload for literal of this type\", loc);\n  return plain;",
+  benign=True)
+M("C06-raw-literal-records-null-operator", "C06", "src/cppparser/cppPreprocessor.cxx",
+  "CPPExpression::raw_literal(str, raw_instance)", "CPPExpression::raw_literal(str, instance)",
+  expect="R06.9|CPPPreprocessor::get_literal|raw_literal(instance)")
+M("C06-benign-raw-literal-local", "C06", "src/cppparser/cppPreprocessor.cxx",
+  "    result.u.expr = new CPPExpression(CPPExpression::raw_literal(str, raw_instance));",
+  "    CPPInstance *lit_op = raw_instance;\n    result.u.expr = new CPPExpression(CPPExpression::raw_literal(str, lit_op));",
+  benign=True)
